@@ -39,6 +39,22 @@ def eventFields (d : Nat) : Option EventFields :=
   else if b22 = 1 ∧ b15 = 0 then some ⟨none, none, none, some hi5, some lo5, info⟩       -- instance group
   else none                                                                              -- 11x…1: reserved
 
+/-- Table 3 the other way round: the frame an event with these source fields,
+instance type and ten information bits has (`none` for a combination of
+fields no scheme carries or a field out of range) -/
+def eventFrame (sa inum dg ig : Option Nat) (itype info : Nat) : Option Nat :=
+  if info ≥ 1024 ∨ itype ≥ 32 then none else
+  match sa, inum, dg, ig with
+  | some sa, none, none, none => if sa < 64 then some (sa * 131072 + itype * 1024 + info) else none
+  | some sa, some n, none, none =>
+      if sa < 64 ∧ n < 32 then some (sa * 131072 + 32768 + n * 1024 + info) else none
+  | none, none, some g, none => if g < 32 then some (8388608 + g * 131072 + itype * 1024 + info) else none
+  | none, some n, none, none =>
+      if n < 32 then some (8388608 + itype * 131072 + 32768 + n * 1024 + info) else none
+  | none, none, none, some g =>
+      if g < 32 then some (8388608 + 4194304 + g * 131072 + itype * 1024 + info) else none
+  | _, _, _, _ => none
+
 /-- what the ten bits of event information mean for an instance type -/
 inductive EventMeaning where
   | pushbutton (name : String)
